@@ -162,11 +162,13 @@ def unpack(table, fi, newfields=None, include_original=False, missing=None):
     return out
 
 
-def unpackdict(table, fi, keys=None, includeoriginal=False, missing=None):
-    """keys None: all keys occurring in the dictionaries, in sorted order."""
+def unpackdict(table, fi, keys=None, includeoriginal=False, missing=None, samplesize=None):
+    """keys None: all keys occurring in the dictionaries of the first `samplesize` data rows (None: all
+    rows), in sorted order; keys that only occur in later rows do not become fields."""
     if not keys:
         ks = set()
-        for row in table[1:]:
+        sampled = table[1:] if samplesize is None else table[1:1 + samplesize]
+        for row in sampled:
             ks |= set(row[fi].keys())
         keys = sorted(ks)
     out = [tuple(_others(table[0], fi, includeoriginal) + list(keys))]
